@@ -1027,6 +1027,18 @@ func streamGoConv(o *Out, r *rand.Rand, n int, thorough bool) {
 				}
 				return ""
 			}},
+			{"va = 0\nvb = 0\nn = scan2((&va), &(vb))\n[n, va, vb]", func(res interface{}, err error) string {
+				if err != nil || fmt.Sprint(res) != "[2 A B]" {
+					return fmt.Sprintf("scan2((&va), &(vb)) - parentheses change nothing: the variables are filled as by scan2(&va, &vb): got %v, err %v", res, err)
+				}
+				return ""
+			}},
+			{"va = 0\nvb = 0\nn = scanv(\"ab\", ((&va)), &((vb)))\n[n, va, vb]", func(res interface{}, err error) string {
+				if err != nil || fmt.Sprint(res) != "[2 200 201]" {
+					return fmt.Sprintf("scanv(\"ab\", ((&va)), &((vb))) - parentheses change nothing: got %v, err %v", res, err)
+				}
+				return ""
+			}},
 			{"va = 0\nvb = 0\nvc = 0\nn = scan1v(&va, &vb, &vc)\n[n, va, vb, vc]", func(res interface{}, err error) string {
 				if err != nil || fmt.Sprint(res) != "[3 1 2 2]" {
 					return fmt.Sprintf("scan1v(&va, &vb, &vc): got %v, err %v", res, err)
